@@ -373,3 +373,38 @@ def c14_4n(run):
     run.reached('native demonstration executed')
     if v.get('reproduced') is None:
         run.cur.notes.append('native demonstration of F11 could not be run: ' + str(v.get('error'))[-300:])
+
+
+@obligation('C14', 'C14-4d AuthorityComponent::end_block: before Aspen the stored set becomes exactly the block-start set with the block\'s updates applied (C14-4a); after Aspen it leaves validator storage alone (the per-validator records were already written by the actions)')
+def c14_4d(run):
+    ex, W = A.engine()
+    f = ex.find(r'authority::component::<impl at [^>]*>::end_block$')
+    a = z3.BitVec('any_addr', 160); n = 0
+    run.bound(sets='block-start set of 1..2 validators, block update set of 0..2 entries (symbolic keys / powers, aliasing allowed); both upgrade states')
+    for pre_aspen in (True, False):
+        for nc in (1, 2):
+            for nu in (0, 1, 2):
+                cur, pc1 = sym_set(W, ex, 'cur', nc); upd, pc2 = sym_set(W, ex, 'upd', nu)
+                w0 = initial_world()
+                world = dict(w0, block_fees=[], cached_deposits=[], events=[], validator_updates=list(upd), pre_aspen_set=list(cur), **(PRE_ASPEN if pre_aspen else POST_ASPEN))
+                arc = Obj('Arc<S>', kind='arc'); arc.fields[('in', 0)] = Obj('S', kind='cell')
+                st = ex.start(f, [B.cell(arc), B.cell(Obj('tendermint::abci::request::EndBlock'))], world=world)
+                st.pc += pc1 + pc2
+                for i, p in enumerate(run.explore(ex, st, poll=True, allow_havoc=(r'^Arguments::|fmt::', r'Arc::<.*>::get_mut$'))):
+                    lab = f'[{"pre" if pre_aspen else "post"}-Aspen, {nc} validators, {nu} updates, path {i}]'
+                    if p.kind != 'return':
+                        run.prove(f'no panic {lab}', p.pc, z3.BoolVal(False), detail=p.info); continue
+                    kind, r = A.poll_result(p)
+                    if kind != 'Ok':
+                        continue
+                    n += 1
+                    if pre_aspen:
+                        after = p.world.get('pre_aspen_set') or []
+                        c_in, c_pw = lookup(ex, W, p, cur, a); u_in, u_pw = lookup(ex, W, p, upd, a); r_in, r_pw = lookup(ex, W, p, after, a)
+                        run.prove(f'stored set after the block = block-start set with every update applied (power 0 removes) {lab}', p.pc,
+                                  z3.If(u_in, z3.If(u_pw == 0, z3.Not(r_in), z3.And(r_in, r_pw == u_pw)), z3.And(r_in == c_in, z3.Implies(c_in, r_pw == c_pw))))
+                    else:
+                        run.prove(f'post-Aspen end_block writes no validator storage {lab}', p.pc, unchanged(w0, p.world, except_={'validator_updates'}))
+    if n < 6:
+        raise Inconclusive(f'vacuity: {n} successful paths')
+    run.require_reached(*run.cur.reach)
